@@ -1381,3 +1381,52 @@ Proof.
                  nthq (d_L s2) k + nthq (d_g s2) k + nthq (d_l s2) k) by (field; exact Z).
     lra.
 Qed.
+
+(* ------------------------------------------------------------------ SLE on a persistent object: every call conserves,
+   whatever the object remembers from earlier calls *)
+From V Require Import C03.ModelHist.
+
+Lemma sle_setup_msol islle j st o o' : sle_setup islle j st o = (o', None) ->
+  so_msol o' = nthq (vadd (s_l st) (s_s st)) j.
+Proof.
+  unfold sle_setup. destruct (qzerob _); [intros H; inversion H|].
+  destruct (opt_eqb _ _ _); [intros H; inversion H; reflexivity|].
+  destruct (Nat.eqb _ 1); [intros H; inversion H; reflexivity|].
+  destruct (pos j _); intros H; inversion H; reflexivity.
+Qed.
+
+Definition sle_same (j : nat) (st st' : sst) : Prop :=
+  (forall k, k <> j -> nthq (s_l st') k = nthq (s_l st) k /\ nthq (s_s st') k = nthq (s_s st) k) /\
+  nthq (s_l st') j + nthq (s_s st') j == nthq (s_l st) j + nthq (s_s st) j.
+
+Lemma sle_call_T_conserve islle j T Tm x st o st' o' e :
+  (j < length (s_l st))%nat -> length (s_l st) = length (s_s st) ->
+  sle_call_T islle j T Tm x (st, o) = ((st', o'), e) -> sle_same j st st'.
+Proof.
+  intros Lj W H. unfold sle_call_T in H. assert (Lj' : (j < length (s_s st))%nat) by lia.
+  destruct (sle_setup islle j (with_sT st T) o) as [o1 [e1|]] eqn:ES.
+  - inversion H; subst. split; [intros; split; reflexivity|reflexivity].
+  - pose proof (sle_setup_msol _ _ _ _ _ ES) as M0. cbn [with_sT s_l s_s] in M0.
+    assert (M : so_msol o1 == nthq (s_l st) j + nthq (s_s st) j) by (rewrite M0; apply nthq_vadd; exact W).
+    destruct (so_chem o1).
+    + destruct (qltb Tm T); inversion H; subst; split; cbn [s_l s_s with_sT].
+      all: try (intros k Hk; rewrite !nth_upd_other by auto; auto).
+      all: rewrite !nth_upd_same by assumption; rewrite M; lra.
+    + destruct (sle_update (so_idx o1) j (so_msol o1) x (with_sT st T)) as [s2|e2] eqn:EU.
+      * inversion H; subst.
+        destruct (sle_update_lemma (so_idx o') j (so_msol o') x (with_sT st T) st' Lj W EU) as (_ & _ & A & B & _).
+        cbn [with_sT s_l s_s] in *. split; [exact A|]. rewrite B, M. reflexivity.
+      * inversion H; subst. split; [intros; split; reflexivity|reflexivity].
+Qed.
+
+Lemma sle_call_given_conserve j T x st o st' o' e :
+  (j < length (s_l st))%nat -> length (s_l st) = length (s_s st) ->
+  sle_call_given j T x (st, o) = ((st', o'), e) -> sle_same j st st'.
+Proof.
+  intros Lj W H. unfold sle_call_given in H. cbn [so_idx so_msol with_sT s_l s_s] in H.
+  destruct (sle_update _ j _ x (with_sT st T)) as [s2|e2] eqn:EU.
+  - inversion H; subst.
+    destruct (sle_update_lemma _ j _ x (with_sT st T) st' Lj W EU) as (_ & _ & A & B & _). cbn [with_sT s_l s_s] in *.
+    split; [exact A|]. rewrite B. lra.
+  - inversion H; subst. split; [intros; split; reflexivity|reflexivity].
+Qed.
